@@ -13,4 +13,10 @@ PROPS = {
         quick=dict(runs=[dict(tests="^TestC04$", checks=20000), dict(tests="^TestC04Exhaustive$", checks=1)], min_nontrivial=1000),
         thorough=dict(runs=[dict(tests="^TestC04$", checks=150000, shards=8), dict(tests="^TestC04Exhaustive$", checks=1, timeout=3000)], min_nontrivial=10000),
     ),
+    "C01": dict(
+        rule="histories: an initial cluster (2 namespaces, 1..5 ingresses over 3 hosts x 7 paths x 3 services per namespace, TLS secrets, classes by annotation/className/none/foreign/dangling, missing services/secrets/ports) followed by 1..5 (thorough 10) batches of 1..4 create/update/delete ops over Ingress, Service, Endpoints, Secret, IngressClass, delivered through the real watcher predicates (15% of multi-op batches with the API state ahead of the events); after the last batch (thorough: every batch) the behavioural normal form of the long-lived controller's files is compared with that of a fresh controller on the same cluster state. Non-trivial = some partial reconcile re-created hosts/backends AND the initial world has a host, backend or secret shared by >= 2 ingresses; distinct by digest of the whole history.",
+        assumptions=HAPCFG_ASSUMPTIONS + ["metadata.generation is bumped on every spec change of every kind (otherwise the informer predicates drop the event in production too)", "SortEndpointsBy=random is not generated", "normal form ignores server slot names, empty slots, path ids, priority map-file numbering and unreachable leftovers, as the statement allows"],
+        quick=dict(runs=[dict(tests="^TestC01$", checks=250)], min_nontrivial=30),
+        thorough=dict(runs=[dict(tests="^TestC01$", checks=700, shards=16, timeout=3000)], min_nontrivial=1000),
+    ),
 }
